@@ -432,6 +432,12 @@ class Lowering:
             f.rec = rec
             f.is_method = n.get('kind') != 'FunctionDecl' and rec is not None
             f.is_static = n.get('storageClass') == 'static'
+            prev = n.get('previousDecl')
+            while prev and not f.is_static:
+                pd = self.by_id.get(prev) or {}
+                if pd.get('storageClass') == 'static':
+                    f.is_static = True
+                prev = pd.get('previousDecl')
             targs = self._targs(n)
             f.ftargs = targs
             base = self._member_base(n, rec) if n.get('kind') != 'FunctionDecl' else n['name']
@@ -625,6 +631,21 @@ def fn_ret_q(self, f):
                 return t
             st = kids(x) + st
         return 'void'
+    # sugar inside the declared type (aliases such as TriplineType): a prvalue return operand has
+    # exactly the function's return type, desugared by clang
+    b0, n0 = split(ret)
+    if n0 == 0 and b0 not in SCALARS:
+        st = [f.body]
+        while st:
+            x = st.pop(0)
+            if x.get('kind') == 'LambdaExpr':
+                continue
+            if x.get('kind') == 'ReturnStmt':
+                ks = kids(x)
+                if ks and ks[0].get('valueCategory') == 'prvalue' and (ks[0].get('type') or {}).get('desugaredQualType'):
+                    return ks[0]['type']['desugaredQualType']
+                break
+            st = kids(x) + st
     # typedef-sugared names local to the class: resolve through a return operand if unknown
     return self.resolve_sugar(ret, f)
 
